@@ -5,7 +5,7 @@
    real balancer / stableswap / concentrated pools by the correspondence run). *)
 From Coq Require Import ZArith List Bool Lia.
 Import ListNotations.
-From Osmo Require Import C05.Model C05.Proofs C05.Instance.
+From Osmo Require Import Base.DecModel C05.Model C05.Proofs C05.Instance.
 Open Scope Z_scope.
 
 (* ------------------------------------------------------------------ multi-hop = composition (exact-in) *)
@@ -46,6 +46,35 @@ Theorem C05_route_out_eq_fold : forall P, PoolLaws P -> forall route s sender ma
   end.
 Proof. exact route_out_eq_fold. Qed.
 Print Assumptions C05_route_out_eq_fold.
+
+(* ... and, at message level: a multi-hop MsgSwapExactAmountOut is the single-hop message for the first hop, buying
+   exactly the estimated input of the rest of the route, followed by the message for the rest of the route with that
+   estimate as its maximum (fee-paying sender; the first pool does not occur again) *)
+Theorem C05_route_out_compose : forall P, PoolLaws P -> forall s sender pid dIn rest maxIn dOutF amtF s' t,
+  rest <> [] -> fee_neutral P s sender -> ~ In pid (map fst rest) ->
+  handle P s (MSwapOut sender ((pid, dIn) :: rest) maxIn dOutF amtF) = Ok (s', t) ->
+  exists a1 s1 t',
+    estimate_out P s rest dOutF amtF = (s, Ok a1) /\
+    handle P s (MSwapOut sender [(pid, dIn)] maxIn (snd (hd (0, 0) rest)) a1) = Ok (s1, t) /\
+    handle P s1 (MSwapOut sender rest a1 dOutF amtF) = Ok (s', t').
+Proof. exact swap_out_msg_compose. Qed.
+Print Assumptions C05_route_out_compose.
+
+(* ------------------------------------------------------------------ the per-hop taker fee is exactly rounded *)
+(* exact-in: the amount swapped is floor(tokenIn * (1 - fee)), the fee is the rest, between 0 and tokenIn *)
+Theorem C05_taker_fee_exact_in : forall amt f, 0 <= amt -> 0 <= f <= DecModel.P18 ->
+  let a := fst (calc_fee_in amt f) in let fee := snd (calc_fee_in amt f) in
+  a * DecModel.P18 <= (DecModel.P18 - f) * amt < (a + 1) * DecModel.P18 /\ fee = amt - a /\ 0 <= fee <= amt.
+Proof. exact calc_fee_in_floor. Qed.
+Print Assumptions C05_taker_fee_exact_in.
+
+(* exact-out: the amount charged is exactly ceil(tokenIn / (1 - fee)) - although the code rounds the 18-decimal quotient
+   half-even before taking the ceiling, that rounding can never reach the integer below *)
+Theorem C05_taker_fee_exact_out : forall amt f, 0 <= amt -> 0 <= f < DecModel.P18 ->
+  exists c, calc_fee_out amt f = Ok (c, c - amt) /\
+            (c - 1) * (DecModel.P18 - f) < amt * DecModel.P18 <= c * (DecModel.P18 - f).
+Proof. exact calc_fee_out_ceil. Qed.
+Print Assumptions C05_taker_fee_exact_out.
 
 (* ------------------------------------------------------------------ split = sum of the legs *)
 Theorem C05_split_in_eq_sum : forall P s sender legs dIn minOut s' total,
